@@ -1,4 +1,34 @@
-(* placeholder until the proofs are integrated *)
-From DictIO Require Import Chars Str Value Scalar.
-Theorem C01_placeholder : True. Proof. exact I. Qed.
-Print Assumptions C01_placeholder.
+(* C01  Native dict files: what is written is what is read back.  Layer (b): quoting / literal extraction.
+   (layer (a), the token round trip, is in C01_tok once integrated) *)
+
+From Coq Require Import NArith ZArith List Bool.
+From DictIO Require Import Chars Str Value Scalar KeyPath SDict Layout Lexer TokParser TreeSpec NativeSpec QuoteProofs.
+Import ListNotations.
+
+(* a string without single quotes, wrapped in single quotes, is found as exactly one single-quoted literal spanning
+   the whole text (whatever else it contains: blanks, delimiters, backslashes, double quotes, non-ASCII) ... *)
+Theorem C01_sq_literal : forall s fuel, no_sq s = true -> (0 < fuel)%nat ->
+  find_quoted fuel c_sq 0 false (sq s) = [(0%nat, (length s + 2)%nat, sq s)].
+Proof. exact sq_literal_found. Qed.
+Print Assumptions C01_sq_literal.
+
+(* ... likewise for double quotes *)
+Theorem C01_dq_literal : forall s fuel, no_dq s = true -> (0 < fuel)%nat ->
+  find_quoted fuel c_dq 0 false (dq s) = [(0%nat, (length s + 2)%nat, dq s)].
+Proof. exact dq_literal_found. Qed.
+Print Assumptions C01_dq_literal.
+
+(* what is registered for the literal is the string itself *)
+Theorem C01_unquote : forall s, remove_quotes (sq s) = s /\ remove_quotes (dq s) = s.
+Proof. exact unquote_quoted. Qed.
+Print Assumptions C01_unquote.
+
+(* the writer's choice: whenever the string needs quotes it is wrapped in a quote character it does not contain;
+   otherwise it is written bare and is free of blanks, delimiters and quotes *)
+Theorem C01_format_choice : forall s, has_char c_dollar s = false -> (has_char c_sq s && has_char c_dq s) = false ->
+  (format_string s = sq s /\ no_sq s = true) \/
+  (format_string s = dq s /\ no_dq s = true) \/
+  (format_string s = s /\ nonempty s = true /\ forallb (fun c => negb (is_struct_char c || is_quote c)) s = true).
+Proof. exact format_string_choice. Qed.
+Print Assumptions C01_format_choice.
+
